@@ -38,18 +38,27 @@ func restartChain(rig *Rig, pre *State) (*State, StepResult) {
 	if res.Panic != "" {
 		return same(), res
 	}
+	// what the preparation left behind, should a later phase refuse to go on
+	prepared := func() *State {
+		pw := rig.Restore(pre)
+		service.PrepForZeroHeightGenesis(pw.ctx, rig.sk)
+		return &State{Height: pre.Height, Time: pre.Time, Used: pre.Used, Msgs: pre.Msgs, Stores: pw.Flush()}
+	}
 	if err := st.ValidateGenesis(*gs); err != nil {
+		res.Prepared = prepared()
 		res.Err = fmt.Errorf("exported genesis does not validate: %v", err)
 		return same(), res
 	}
 	bz, err := encCfg.Marshaler.MarshalJSON(gs)
 	if err != nil {
 		res.Err = fmt.Errorf("exported genesis cannot be written: %v", err)
+		res.Prepared = prepared()
 		return same(), res
 	}
 	var gs2 st.GenesisState
 	if err := encCfg.Marshaler.UnmarshalJSON(bz, &gs2); err != nil {
 		res.Err = fmt.Errorf("exported genesis cannot be read back: %v", err)
+		res.Prepared = prepared()
 		return same(), res
 	}
 	stores := w.Flush()
@@ -66,6 +75,7 @@ func restartChain(rig *Rig, pre *State) (*State, StepResult) {
 		service.InitGenesis(nw.ctx, rig.sk, gs2)
 	}()
 	if res.Panic != "" {
+		res.Prepared = prepared()
 		return same(), res
 	}
 	next.Stores = nw.Flush()
